@@ -105,6 +105,9 @@ def hardware_for(draw, spec, configs=("accel",), force=None):
     buf_class = draw(st.sampled_from(["Buffet", "Buffet", "Cache"]))
     isect_type = draw(st.sampled_from([None, "two-finger", "skip-ahead", "leader-follower", "leader-follower"]))
     has_seq = draw(st.integers(0, 2)) == 0
+    has_merger = draw(st.integers(0, 2)) == 0
+    mrg_inputs = draw(st.sampled_from([2, 64, "inf"]))
+    mrg_radix = draw(st.sampled_from([2, 64, "inf"]))
     freq = draw(st.sampled_from([1000, 2048, 500000000]))
     bw_mem = draw(st.sampled_from([128, 512, 8796093022208]))
     bw_buf = draw(st.sampled_from([256, 1024]))
@@ -117,7 +120,7 @@ def hardware_for(draw, spec, configs=("accel",), force=None):
             n2 = draw(st.sampled_from([0, 1, 7]))
         sfx = "" if len(configs) == 1 else cfg[-1].upper()
         names = {"mem": "Mem" + sfx, "buf": "Buf" + sfx, "mul": "Mul" + sfx, "add": "Add" + sfx,
-                 "isect": "Isect" + sfx, "seq": "Seq" + sfx}
+                 "isect": "Isect" + sfx, "seq": "Seq" + sfx, "mrg": "Mrg" + sfx}
         comp_names[cfg] = names
         pe_local = [{"name": names["mul"], "class": "Compute", "attributes": {"type": "mul"}},
                     {"name": names["add"], "class": "Compute", "attributes": {"type": "add"}}]
@@ -125,13 +128,18 @@ def hardware_for(draw, spec, configs=("accel",), force=None):
             pe_local.append({"name": names["isect"], "class": "Intersector", "attributes": {"type": isect_type}})
         if has_seq:
             pe_local.append({"name": names["seq"], "class": "Sequencer", "attributes": {"num_ranks": 8}})
+        chip_local = [{"name": names["buf"], "class": buf_class,
+                       "attributes": {"width": 64, "depth": depth, "bandwidth": bw_buf}}]
+        if has_merger:
+            chip_local.append({"name": names["mrg"], "class": "Merger",
+                               "attributes": {"inputs": mrg_inputs, "comparator_radix": mrg_radix, "outputs": 1,
+                                              "order": "fifo", "reduce": False}})
         arch[cfg] = [{
             "name": "System" + sfx, "attributes": {"clock_frequency": freq},
             "local": [{"name": names["mem"], "class": "DRAM", "attributes": {"bandwidth": bw_mem}}],
             "subtree": [{
                 "name": lvl("Chip" + sfx, n1),
-                "local": [{"name": names["buf"], "class": buf_class,
-                           "attributes": {"width": 64, "depth": depth, "bandwidth": bw_buf}}],
+                "local": chip_local,
                 "subtree": [{"name": lvl("PE" + sfx, n2), "local": pe_local}]}]}]
     # ---- format: one format per tensor and Einsum-layout; tensors used with different layouts get several formats
     fmt = {}
@@ -217,6 +225,17 @@ def hardware_for(draw, spec, configs=("accel",), force=None):
                         b["leader"] = draw(st.sampled_from(hs))
                     bl.append(b)
                 entry.append({"component": names["isect"], "bindings": bl})
+        if has_merger and draw(st.integers(0, 2)) > 0:
+            # a merger models the swizzle of one input tensor from its stored order to the loop-concordant order
+            # (single swap merges of unpartitioned tensors only: that is all the compiler implements)
+            cand = []
+            for t, rs in per.items():
+                if t == out or t in outs or len(rs) < 2 or sorted(rs) != sorted(decl[t]) or rs == decl[t]:
+                    continue
+                cand.append((t, list(decl[t]), list(rs)))
+            if cand:
+                t, init, final = draw(st.sampled_from(cand))
+                entry.append({"component": names["mrg"], "bindings": [{"tensor": t, "init-ranks": init, "final-ranks": final}]})
         if has_seq and lo and draw(st.booleans()):
             rs = draw(gen.subset(lo, min_size=1))
             entry.append({"component": names["seq"], "bindings": [{"rank": r} for r in rs]})
